@@ -43,22 +43,50 @@ Definition of_outcome (p : outcome) : tree :=
   | ErrFuel => L [I 3]
   end.
 
+(* step = L [I kind; table]   kind 0 = Table(...), 1 = MetaData.remove, 2 = Table(..., extend_existing=True) *)
+Definition as_step (t : tree) : option step :=
+  match t with
+  | L [I k; tr] =>
+    match as_table tr with
+    | Some tb => if Z.eqb k 0 then Some (Define tb) else if Z.eqb k 1 then Some (Remove (t_name tb))
+                 else if Z.eqb k 2 then Some (Extend tb) else None
+    | None => None
+    end
+  | _ => None
+  end.
+
+Definition run_op (op : Z) (ex : list N) (cf : bool) (md : metadata) : tree :=
+  if Z.eqb op 0 then of_outcome (create_plan ex cf md)
+  else if Z.eqb op 1 then of_outcome (drop_plan ex cf md)
+  else
+    match sorted_tables md with
+    | Ok (o, w) => L [I 0; of_list of_N o; of_bool w]
+    | Circular => L [I 1]
+    | OutOfFuel => L [I 3]
+    end.
+
 (* input  L [I op; L existing; I checkfirst; L tables]   op 0 = create_all, 1 = drop_all,
-   2 = sorted_tables *)
+   2 = sorted_tables; op 10/11/12: the same on the metadata left by a history (L steps instead of
+   L tables); L [I 6] = the history itself is rejected (table defined twice) *)
 Definition run_case (t : tree) : tree :=
   match t with
   | L [I op; tex; tcf; tmd] =>
-    match as_list_of as_N tex, as_bool tcf, as_list_of as_table tmd with
-    | Some ex, Some cf, Some md =>
-      if Z.eqb op 0 then of_outcome (create_plan ex cf md)
-      else if Z.eqb op 1 then of_outcome (drop_plan ex cf md)
-      else
-        match sorted_tables md with
-        | Ok (o, w) => L [I 0; of_list of_N o; of_bool w]
-        | Circular => L [I 1]
-        | OutOfFuel => L [I 3]
+    match as_list_of as_N tex, as_bool tcf with
+    | Some ex, Some cf =>
+      if Z.ltb op 10 then
+        match as_list_of as_table tmd with
+        | Some md => run_op op ex cf md
+        | None => bad_input
         end
-    | _, _, _ => bad_input
+      else
+        match as_list_of as_step tmd with
+        | Some h => match current h with
+                    | Some md => run_op (op - 10) ex cf md
+                    | None => L [I 6]
+                    end
+        | None => bad_input
+        end
+    | _, _ => bad_input
     end
   | _ => bad_input
   end.
